@@ -8540,7 +8540,7 @@ func ruleStateFresh(prop string) ruleFn {
 // CLOCK-UNITS (C07, C02): expiry is judged in seconds.
 func ruleClockUnits(prop string) ruleFn {
 	return func(w *World, r *Report) {
-		r.Rule("CLOCK-UNITS", "`expires` is UNIX seconds, and checkExpiration / notAfter / the expire helpers compare it with the `now` they are given (0: read the clock yourself).  core has three clocks: Now() in nanoseconds, NowMicros(), NowSecs().  Every non-constant `now` handed to those functions derives from NowSecs() or time.Time.Unix(), never from Now() / NowMicros() / UnixNano(): in nanoseconds every lease, however long, lies in the past", 2)
+		r.Rule("CLOCK-UNITS", "`expires` is UNIX seconds, and checkExpiration / notAfter / the expire helpers compare it with the `now` they are given (0: read the clock yourself).  core has three clocks: Now() in nanoseconds, NowMicros(), NowSecs().  Every non-constant `now` handed to those functions derives from NowSecs() or time.Time.Unix(), never from Now() / NowMicros() / UnixNano(): in nanoseconds every lease, however long, lies in the past", 1)
 		targets := map[*ssa.Function]int{}
 		for _, name := range []string{"checkExpiration", "notAfter"} {
 			if f := w.TryFunc("core", name); f != nil {
@@ -9359,4 +9359,74 @@ func collectorOf(w *World, fn *ssa.Function) *ssa.Function {
 		return out
 	}
 	return fn
+}
+
+// PURGE-RECHECK (C07, C12): what a reader noted as expired is looked at again before it goes.
+func rulePurgeRecheck(prop string) ruleFn {
+	return func(w *World, r *Report) {
+		r.Rule("PURGE-RECHECK", "a reader that meets an expired fact only notes its id; the removal happens later, under the write lock, in a function of the state that is handed the ids.  Between the two, a writer can store a new fact under the same id — one without any expiry.  Every removal that such a function makes for an id out of the list it was given is therefore made by an expiry judge that looks at what is stored under the id *now* (a helper that judges and removes), never by the removal primitive itself: removed by id, the new fact is gone from memory and from storage, and is never returned again", 2)
+		a := newLocAnchors(w)
+		judges := expiryJudges(w)
+		n := 0
+		for _, fn := range w.Funcs {
+			owner, ok := stateOwnerOf(a, fn)
+			if !ok || isTestFile(w, fn) || fn.Parent() != nil {
+				continue
+			}
+			var list *ssa.Parameter
+			for _, p := range fn.Params {
+				if sl, isSl := p.Type().Underlying().(*types.Slice); isSl {
+					if b, isB := sl.Elem().Underlying().(*types.Basic); isB && b.Kind() == types.String {
+						list = p
+					}
+				}
+			}
+			if list == nil {
+				continue
+			}
+			fromList := func(v ssa.Value) bool {
+				return dependsOn(v, func(x ssa.Value) bool { return x == ssa.Value(list) })
+			}
+			key := "fn=" + fname(fn)
+			removes, bad := 0, ""
+			allInstrs(fn, func(in ssa.Instruction) {
+				c := callOf(in)
+				if c == nil || c.StaticCallee() == nil {
+					return
+				}
+				f := c.StaticCallee()
+				if o2, ok := stateOwnerOf(a, f); !ok || o2 != owner {
+					return
+				}
+				idArg := false
+				for _, arg := range c.Args {
+					if b, isB := arg.Type().Underlying().(*types.Basic); isB && b.Kind() == types.String && fromList(arg) {
+						idArg = true
+					}
+				}
+				if !idArg {
+					return
+				}
+				switch {
+				case judges[f]:
+					removes++
+				case f.Name() == "rem" || f.Name() == "Rem":
+					removes++
+					bad = w.PosOf(in)
+				}
+			})
+			if removes == 0 {
+				continue
+			}
+			n++
+			if bad != "" {
+				r.violation("PURGE-RECHECK", key, bad, "an id that a reader noted earlier is removed without a look at what is stored under it now: a fact written in the meantime — one that never expires — is removed from memory and storage")
+			} else {
+				r.ok("PURGE-RECHECK", key, w.Pos(fn.Pos()), "every id is judged again, on what is stored now, by the helper that removes it")
+			}
+		}
+		if n == 0 {
+			r.exempt("PURGE-RECHECK", "iface=core.State", "", "no state function removes ids out of a list it is handed: the premise (readers note, a purge removes) does not hold; not decided")
+		}
+	}
 }
